@@ -303,12 +303,14 @@ impl Block {
             && final(self).instructions@ == old(self).instructions@.remove(p)),
         /*@gone*/ r is Ok ==> !final(self).has_instruction(index),
 //@ loop 0
-    invariant
-        it.seq().len() == self.instructions@.len(),
-        forall|j: int| 0 <= j < it.seq().len() ==> *#[trigger] it.seq()[j] == self.instructions@[j],
+    invariant_except_break
         i__ == it.index@,
         pos__ is None,
         forall|j: int| 0 <= j < it.index@ ==> (#[trigger] self.instructions@[j]).index != index,
+    invariant
+        it.seq().len() == self.instructions@.len(),
+        forall|j: int| 0 <= j < it.seq().len() ==> *#[trigger] it.seq()[j] == self.instructions@[j],
+        self.instructions@.len() <= usize::MAX,
     ensures
         pos__ matches Some(p) ==> p < self.instructions@.len() && self.instructions@[p as int].index == index,
         pos__ is None ==> forall|j: int| 0 <= j < self.instructions@.len() ==> (#[trigger] self.instructions@[j]).index != index,
@@ -329,5 +331,12 @@ impl Block {
             assert(self.instructions@[i] == o[i0]);
         }
     }
+//@ end
+
+// instruction_mut hands out `&mut Instruction` found through `iter_mut().find(..)`; vstd has no usable
+// specification of `IterMut` / `find`, so the function is only checked for absence of panics — NO effect
+// contract (listed under undecided_subclaims; keeping block_wf is the caller's obligation).
+//@ fn impl Block :: fn instruction_mut
+//@ closure 0 |instruction: &&mut Instruction| -> (r0: bool)
 //@ end
 }
